@@ -16,6 +16,11 @@ Clauses (violation ids)
   pin.locations          a component with ``latticeIDs`` does not sit on exactly the block-grid cells that carry these IDs
   comp.massfracs         mass fractions of a ``mass fractions`` custom isotopic do not read back (normalised; elements
                          compared as the sum over their isotopes) - only where no material modification applies
+  comp.massfracs.order-dependent   two components with identical text (same component entry, same isotopic, same material
+                         modifications reaching them) have different mass fractions / density - build-order dependence
+                         through shared blueprint state
+  isotopics.definition-mutated     after construction the blueprint's own custom-isotopic definition differs from the text or
+                         from a never-constructed load of the same text
   comp.density           explicit ``density`` of a custom isotopic on a ``Custom`` material does not read back
   comp.ndens             ``number densities`` custom isotopic on a ``Custom`` material does not read back (Tinput == Thot)
   construct.nondeterministic   two constructions of the same text differ (own structural comparison, incl. number densities)
@@ -55,7 +60,8 @@ from ruamel.yaml import YAML  # noqa: E402
 
 B = Bounded(
     rule="shipped blueprint documents of armi/tests plus seeded generated small documents (component shape class / material / "
-    "Tinput / Thot / mult / dimension values / linked dimensions / custom isotopics; 1-3 block designs, 1-3 assembly designs of "
+    "Tinput / Thot / mult / dimension values / linked dimensions / custom isotopics; every third document: one mass-fraction isotopic shared by the UZr fuel of several blocks and "
+    "assemblies with U235_wt_frac/ZR_wt_frac (by block or by component) reaching it in SOME blocks only, before and after unmodified uses; 1-3 block designs, 1-3 assembly designs of "
     "1-3 blocks; hex third / hex full flats-up / hex corners-up full / Cartesian full+quarter core grids given as lattice-map "
     "text or explicit grid contents; optional pin lattice; optional SFP), each constructed twice and compared with a plain-YAML "
     "reading; plus crafted inconsistent documents; non-trivial = distinct (document, checked object)",
@@ -229,6 +235,22 @@ class Doc:
         return act
 
 
+    @staticmethod
+    def activeModValues(assemDict, k, compName):
+        """{modification name: value} reaching component compName of block k (by-component overrides by-block)."""
+        mods = assemDict.get("material modifications") or {}
+        out = {}
+        for name, lst in mods.items():
+            if name != "by component" and isinstance(lst, list) and k < len(lst) and lst[k] not in ("", None):
+                out[name] = lst[k]
+        for cn, cm in (mods.get("by component") or {}).items():
+            if cn == compName:
+                for name, l2 in cm.items():
+                    if k < len(l2) and l2[k] not in ("", None):
+                        out[name] = l2[k]
+        return out
+
+
 LINK = re.compile(r"^\s*(.+?)\s*\.\s*(.+?)\s*$")  # the documented form "name.dimension"
 
 
@@ -332,6 +354,23 @@ def checkComponent(doc, case, where, assemDict, k, bDict, b, cName, cDict, pinCo
             check(close(c.getDimension(key, cold=True), expected), vid, "cold dimension differs from the input number", dict(inp, key=key, expected=expected, found=c.getDimension(key, cold=True)))
     # composition: only what the text states literally
     iso = cDict.get("isotopics")
+    if iso is not None and iso in doc.isotopics and not isMergeTarget and cDict.get("material") is not None:
+        # same text (component entry, isotopic, modifications reaching it) => same composition, whatever was built before
+        key = json.dumps([case, cDict, sorted(Doc.activeModValues(assemDict, k, cName).items())], sort_keys=True, default=str)
+        mfHere = massFractions(c)
+        ref = sameTextRef.get(key)
+        if ref is None:
+            sameTextRef[key] = (mfHere, float(c.density()), dict(inp))
+        else:
+            mf0, rho0, where0 = ref
+            diff = [[nn, mf0.get(nn, 0.0), mfHere.get(nn, 0.0)] for nn in sorted(set(mf0) | set(mfHere)) if not close(mf0.get(nn, 0.0), mfHere.get(nn, 0.0), 1e-10) and abs(mf0.get(nn, 0.0) - mfHere.get(nn, 0.0)) > 1e-14]
+            check(
+                not diff and close(rho0, c.density(), 1e-10),
+                "comp.massfracs.order-dependent",
+                "two components with identical text (same entry, same isotopic, same material modifications) have different compositions",
+                dict(inp, isotopics=iso, other=where0, differing=diff[:5], densities=[rho0, float(c.density())]),
+            )
+            done["same-text pairs"] = done.get("same-text pairs", 0) + 1
     if iso is not None and iso in doc.isotopics and not Doc.activeMods(assemDict, k, cName) and not isMergeTarget:
         spec = doc.isotopics[iso]
         fmt = spec.get("input format")
@@ -366,6 +405,7 @@ def checkComponent(doc, case, where, assemDict, k, bDict, b, cName, cDict, pinCo
 
 skipped = {}
 done = {}
+sameTextRef = {}
 
 
 def checkAssembly(doc, case, a, designName, where, cs):
@@ -458,6 +498,49 @@ def checkReactor(doc, r, case, cs):
             check(len(container) == nExpected, "core.extra-assembly", "number of assemblies differs from the number of named locations", {"case": case, "system": sysName, "expected": nExpected, "found": len(container)})
 
 
+def isotopicDefinition(ci):
+    return {"massFracs": {str(n): float(v) for n, v in ci.massFracs.items()}, "entries": {str(n): float(v) for n, v in ci.items()}, "density": (None if ci.density is None else float(ci.density)), "format": ci.inputFormat}
+
+
+def checkIsotopicDefinitions(doc, r, case, text):
+    """After construction, bp.customIsotopics must still say what the text says (and what a never-constructed load says)."""
+    bp = r.blueprints
+    if not doc.isotopics or bp.customIsotopics is None:
+        return
+    try:
+        fresh = blueprints.Blueprints.load(text).customIsotopics
+    except Exception:
+        fresh = None
+    for name, spec in doc.isotopics.items():
+        if name not in bp.customIsotopics:
+            continue
+        B.case((case, "isotopic definition", name), None)
+        ci = bp.customIsotopics[name]
+        inp = {"case": case, "isotopics": name}
+        vals = {str(n): float(x) for n, x in spec.items() if n not in ("input format", "density")}
+        now = isotopicDefinition(ci)
+        bad = [[n, x, now["entries"].get(n)] for n, x in vals.items() if now["entries"].get(n) != x]
+        if spec.get("input format") == "mass fractions":
+            for n, x in vals.items():
+                if n in now["massFracs"]:
+                    found = now["massFracs"][n]
+                else:  # an element that armi expanded when READING the section: compare the sum over its isotopes
+                    found = sum(v for nn, v in now["massFracs"].items() if (elementOf(nn) or "").upper() == n.upper())
+                if not close(found, x, 1e-9):
+                    bad.append([n, x, found])
+            named = {(elementOf(n) or n).upper() for n in vals}
+            bad += [[nn, 0.0, v] for nn, v in now["massFracs"].items() if v and (elementOf(nn) or nn).upper() not in named]
+        if spec.get("density") is not None and spec.get("input format") != "number densities":
+            if now["density"] != float(spec["density"]):
+                bad.append(["density", spec["density"], now["density"]])
+        check(not bad, "isotopics.definition-mutated", "after construction the blueprint's custom isotopic no longer equals the text (name, text, found)", dict(inp, bad=bad[:6]))
+        if fresh is not None and name in fresh:
+            was = isotopicDefinition(fresh[name])
+            d = [[k_, was[k_], now[k_]] for k_ in was if was[k_] != now[k_]]
+            check(not d, "isotopics.definition-mutated", "construction changed the blueprint's custom isotopic (as loaded -> after construction)", dict(inp, changed=json.loads(json.dumps(d, default=str))[:3]))
+        done["isotopic definitions"] = done.get("isotopic definitions", 0) + 1
+
+
 def signature(r):
     """Own structural value of a reactor (no names/serial numbers, which count globally)."""
     out = []
@@ -531,6 +614,7 @@ def runCase(case, text, build, sample=None):
         violation("construct.failed", "a well-formed document was not constructed: %r" % e, {"case": case, "text": text if len(text) < 6000 else text[:6000] + "..."}, len(text))
         return False
     checkReactor(doc, r1, case, cs)
+    checkIsotopicDefinitions(doc, r1, case, text)
     d = firstDifference(signature(r1), signature(r2))
     check(d is None, "construct.nondeterministic", "two constructions of the same document differ (path, first, second)", {"case": case, "difference": d, "text": text if len(text) < 6000 else None}, len(text))
     timings[case] = round(time.time() - t0, 2)
@@ -672,7 +756,10 @@ def genDocument(rng, n):
     desc = {"grid": gridKind}
     L = []
     isoName = None
-    isoKind = rng.choice([None, None, "mass", "massdens", "ndens"])
+    # "shared" family: ONE mass-fraction isotopic used by the UZr fuel of several blocks/assemblies, with material
+    # modifications reaching it in SOME blocks only, before and after blocks that use it unmodified (build order)
+    shared = n % 3 == 1
+    isoKind = rng.choice(["mass", "massdens"]) if shared else rng.choice([None, None, "mass", "massdens", "ndens"])
     if isoKind:
         isoName = "ISO1"
         L.append("custom isotopics:")
@@ -685,13 +772,15 @@ def genDocument(rng, n):
             w[-1] = float("%.6f" % (1.0 - sum(w[:-1])))
             if isoKind == "massdens":
                 L.append("    density: %r" % f4(rng.uniform(2.0, 19.0)))
-            for nuc, x in zip(rng.sample(["U235", "U238", "PU239", "ZR", "FE", "C", "NA", "CR"], 4), w):
+            nucs = (["U235", "U238", "ZR", rng.choice(["PU239", "FE", "C", "U234"])] if shared else rng.sample(["U235", "U238", "PU239", "ZR", "FE", "C", "NA", "CR"], 4))
+            for nuc, x in zip(nucs, w):
                 L.append("    %s: %r" % (nuc, x))
         else:
             L.append("    input format: number densities")
             for nuc in rng.sample(["U234", "U235", "U236", "U238", "PU239", "PU240", "PU241", "AM241"], 3):
                 L.append("    %s: %r" % (nuc, float("%.6e" % rng.uniform(1e-5, 3e-2))))
     desc["isotopics"] = isoKind
+    desc["sharedIsotopicWithPartialMods"] = shared
     usePinGrid = (not cart) and rng.random() < 0.25
     desc["pinGrid"] = usePinGrid
     # block designs
@@ -701,14 +790,21 @@ def genDocument(rng, n):
     designs = pool[:nBlockDesigns]
     if not any(k == "pin" for _, k in designs):
         designs[0] = ("fuel", "pin")
+    if shared:  # one or two fuel designs on the shared isotopic, plus whatever else was drawn
+        designs = [d for d in designs if d[0] not in ("fuel", "feed fuel")][:1] + [("fuel", "pin")] + ([("feed fuel", "pin")] if rng.random() < 0.5 else [])
+        rng.shuffle(designs)
     L.append("blocks:")
     anchors = []
     fuelLike = []
+    xFuel = []
     for name, kind in designs:
         feats = {}
         if kind == "pin":
             feats["pinName"] = {"fuel": "fuel", "feed fuel": "fuel", "axial shield": "shield", "control": "control"}[name]
-            if isoKind and (name in ("fuel", "feed fuel") or rng.random() < 0.5):
+            if shared and name in ("fuel", "feed fuel"):
+                feats["isotopics"] = isoName
+                feats["pinMaterial"] = "UZr"
+            elif isoKind and (name in ("fuel", "feed fuel") or rng.random() < 0.5):
                 feats["isotopics"] = isoName
                 feats["pinMaterial"] = "Custom" if (isoKind != "mass" or rng.random() < 0.5) else rng.choice(["UZr", "HT9"])
             else:
@@ -724,15 +820,25 @@ def genDocument(rng, n):
         anchors.append((name, anchor, kind, feats))
         if kind == "pin" and feats.get("pinMaterial") == "UZr" and not feats.get("isotopics"):
             fuelLike.append(anchor)
+        if shared and kind == "pin" and feats.get("pinMaterial") == "UZr" and feats.get("isotopics"):
+            xFuel.append(anchor)
     # assemblies
     nAssem = rng.randint(1, 3)
     specs = rng.sample(["IC", "OC", "SH", "PC", "MC", "A1", "f2"], nAssem)
     aNames = rng.sample(["igniter fuel", "feed fuel", "radial shield", "primary control", "middle fuel", "lta fuel"], nAssem)
-    nb = rng.randint(1, 3)
+    nb = rng.randint(2, 3) if shared else rng.randint(1, 3)
+    if shared:
+        nAssem = max(nAssem, 2)
+        specs = rng.sample(["IC", "OC", "SH", "PC", "MC", "A1", "f2"], nAssem)
+        aNames = rng.sample(["igniter fuel", "feed fuel", "radial shield", "primary control", "middle fuel", "lta fuel"], nAssem)
+    forced = rng.randrange(nAssem) if shared else -1  # this assembly certainly mixes modified and unmodified uses
     sameHeights = [f4(rng.uniform(5.0, 60.0)) for _ in range(nb)]
     L.append("assemblies:")
-    for an, sp in zip(aNames, specs):
+    for ai, (an, sp) in enumerate(zip(aNames, specs)):
         chosen = [rng.choice(anchors) for _ in range(nb)]
+        if shared:
+            xa = [a_ for a_ in anchors if a_[1] in xFuel]
+            chosen = [rng.choice(xa) if (ai == forced or rng.random() < 0.6) else c_ for c_ in chosen]
         L.append("  %s:" % an)
         if rng.random() < 0.25:
             L.append("    flags: %s" % rng.choice(["fuel", "igniter fuel", "radial shield", "control primary"]))
@@ -741,7 +847,23 @@ def genDocument(rng, n):
         L.append("    height: [%s]" % ", ".join(repr(h) for h in sameHeights))
         L.append("    axial mesh points: [%s]" % ", ".join(str(rng.randint(1, 3)) for _ in range(nb)))
         L.append("    xs types: [%s]" % ", ".join(rng.choice(["A", "B", "C", "AB"]) for _ in range(nb)))
-        if any(c[1] in fuelLike for c in chosen) and rng.random() < 0.5:
+        if shared and any(c[1] in xFuel for c in chosen) and (ai == forced or rng.random() < 0.5):
+            isX = [c[1] in xFuel for c in chosen]
+            while True:  # modified in SOME fuel blocks only; in the forced assembly at least one modified and one not
+                on = [x and rng.random() < 0.5 for x in isX]
+                if ai != forced or (any(on) and any(x and not o for x, o in zip(isX, on))):
+                    break
+            byComp = rng.random() < 0.3
+            L.append("    material modifications:")
+            ind = "      "
+            if byComp:
+                L.append("      by component:")
+                L.append("        fuel:")
+                ind = "          "
+            L.append(ind + "U235_wt_frac: [%s]" % ", ".join((repr(float("%.3f" % rng.uniform(0.05, 0.3))) if o else "''") for o in on))
+            if rng.random() < 0.6:
+                L.append(ind + "ZR_wt_frac: [%s]" % ", ".join((repr(float("%.3f" % rng.uniform(0.05, 0.12))) if (o and rng.random() < 0.8) else "''") for o in on))
+        elif any(c[1] in fuelLike for c in chosen) and rng.random() < 0.5:
             L.append("    material modifications:")
             L.append("      U235_wt_frac: [%s]" % ", ".join((repr(float("%.3f" % rng.uniform(0.05, 0.3))) if c[1] in fuelLike else "''") for c in chosen))
             L.append("      ZR_wt_frac: [%s]" % ", ".join((repr(float("%.3f" % rng.uniform(0.05, 0.12))) if c[1] in fuelLike else "''") for c in chosen))
